@@ -9,7 +9,8 @@ RULE = ("family of 24 function-pointer types around `fn(i32, &u8) -> i64`, each 
         "null replacement / typed+unchecked mixes per member, plus 20 async output-type pairs. Structural equality is known by "
         "construction. Oracle: accepted iff same class; a refusal is a 'Signature mismatch' or null-pointer panic, raised before any "
         "library mprotect / flush / executable mmap, with the target bytes unchanged. Lifetime-only pairs are run and reported, not judged. "
-        "distinct = (form pair, class i, class j)")
+        "Additionally every arm of fake! (parsed from the source, one generated program per arm) is installed on a target declared with "
+        "exactly the type written in func_type: it must be accepted. distinct = (form pair, class i, class j) + fake! arms")
 
 
 def run(tier, seed):
@@ -23,10 +24,46 @@ def run(tier, seed):
     lt = obs.pop("lifetime_spelling_pairs_not_judged", [])
     r.observe("native", obs)
     r.observe("lifetime_spelling_pairs_not_judged", sorted(set(map(str, lt if isinstance(lt, list) else [lt])))[:40])
+    arms_part(r)
     r.exhaustive = True
     r.assumptions = ["the family is fixed (seed-independent): the check is exhaustive over family x family x macro forms, a sample of the space of all Rust function types",
                      "a wrongly accepted pair is never called"]
     return r.finish({"scenario": "c09"})
+
+
+def arms_part(r):
+    """Every arm of fake! must hand over a FuncPtr whose signature is the type the user wrote: one generated
+    program per arm installs the arm's fake on a target declared with exactly that type."""
+    import os, subprocess
+    import armsgen
+    arms = armsgen.parse_arms(os.path.join(core.REPO, "src", "interface", "macros.rs"))
+    classified = [(i, c) for i, c in ((i, armsgen.classify(a)) for i, a in enumerate(arms)) if c is not None]
+    try:
+        proj, exes, errors = armsgen.build_all(classified, [0])
+    except core.HarnessError as e:
+        r.add_case("arms", -7, "fake-arms/build", "inconclusive", "arms-build-failed", {"err": str(e)[-300:]})
+        return
+    n = 0
+    for i, c in classified:
+        label = "%s/%s/[%s]" % (c["qual"], "unit" if c["unit"] else "non-unit", ",".join(c["opts"]))
+        exe = exes.get((i, 0))
+        cls = "fake-arm-signature/%03d/%s" % (i, label)
+        if not exe:
+            r.add_case("arms", i, cls, "inconclusive", "arm-does-not-compile(C08)", {})
+            continue
+        try:
+            p = subprocess.run([exe, "0", ""], stdout=subprocess.PIPE, stderr=subprocess.PIPE, text=True, timeout=60)
+        except subprocess.TimeoutExpired:
+            r.add_case("arms", i, cls, "inconclusive", "watchdog", {})
+            continue
+        n += 1
+        if "Signature mismatch" in p.stderr or "Signature mismatch" in p.stdout:
+            r.add_case("arms", i, cls, "violated", "identical-signature-refused:fake!-arm", {"arm": label, "stderr": p.stderr[-300:]})
+        elif "\nD\n" in p.stdout or p.stdout.startswith("L 0\nD"):
+            r.add_case("arms", i, cls, "held", "", {})
+        else:
+            r.add_case("arms", i, cls, "inconclusive", "arm-program-did-not-reach-scope-exit", {"stdout": p.stdout[-200:], "stderr": p.stderr[-200:]})
+    r.observe("fake_arms_installed_on_identically_typed_targets", n)
 
 
 def replay(path):
